@@ -20,8 +20,9 @@ ANCHORS = {"funfit.py": [(36, 38)], "rfa.py": [(270, 280), (431, 455), (481, 498
 EXPLANATION = "metamorphic relations between pairs of real runs over a bounded lattice"
 
 ADAPTIVE = ("linada", "expada")
-VMAPS_GENERIC = [(2.0, 0.0), (-1.0, 0.0), (0.5, 3.0), (-3.7, 1.25), (1.0, -2.0)]
-VMAPS_EXACT = [(2.0, 0.0), (-1.0, 0.0), (0.25, 0.0), (1.0, 3.0), (1.0, -2.0)]     # the last one makes the series change sign
+# units: a large baseline (3e6, 2^22) and tiny units (2^-30, 1e-9) are changes of units like any other
+VMAPS_GENERIC = [(2.0, 0.0), (-1.0, 0.0), (0.5, 3.0), (-3.7, 1.25), (1.0, -2.0), (1.0, 3e6), (2.0 ** -30, 0.0), (1e-9, 0.0)]
+VMAPS_EXACT = [(2.0, 0.0), (-1.0, 0.0), (0.25, 0.0), (1.0, 3.0), (1.0, -2.0), (1.0, float(2 ** 22)), (2.0 ** -30, 0.0)]     # (1,-2) makes the series change sign
 TMAPS = [(2.0, 0.0), (1.0, 5.0), (0.1, -3.3), (8.0, 1.0), (1.0, float(2 ** 20)), (0.5, -float(2 ** 24)), (1.0, float(2 ** 32))]
 
 
@@ -40,13 +41,15 @@ def check_valuemap(case):
     xs0, ys0 = _run(st, x, y, n, p)
     y2 = [a * v + b for v in y]
     xs1, ys1 = _run(st, x, y2, n, p)
-    sc = max(1.0, max(abs(v) for v in y2), max(abs(float(v)) for v in y))
+    import math
+    # relative to the MAPPED variation (|a| * scale of y), plus the rounding of values at the mapped level
+    tol = 1e-9 * abs(a) * max(1.0, max(abs(float(v)) for v in y)) + 32 * math.ulp(max(abs(v) for v in y2) or 1.0)
     exp = a * ys0 + b
     fails = []
     key = {"strategy": st, "relation": "value-map"}
     if xs1.tobytes() != xs0.tobytes():
         fails.append(fail("value-map-changed-x", None, key))
-    if np.any(np.abs(ys1 - exp) > 1e-9 * sc):
+    if np.any(np.abs(ys1 - exp) > tol):
         i = int(np.argmax(np.abs(ys1 - exp)))
         fails.append(fail("value-map", {"a": a, "b": b, "sample": i, "observed": ys1[i], "expected": exp[i],
                                         "mapped_run": ys1, "map_of_run": exp}, key))
@@ -144,6 +147,23 @@ def check_linearity(case, ys=None, basis=None):
     return fails, ("w", st, n, tuple(np.round(rs, 9)))
 
 
+@kind("locality-long")
+def check_locality_long(case):
+    """locality and the unit maps on long series (the number of averages crosses powers of two and the code's constants)"""
+    from mc.harness import shrink
+    m, gk, st, n, p, j = case["len"], case["grid"], case["strategy"], case["n"], case["p"], case["j"]
+    x = A.long_grid(m, gk)
+    y = A.long_values(m, "saw")
+    fails = []
+    f1, sig = check_locality({"strategy": st, "x": x, "y": y, "n": n, "p": p, "j": j, "v": y[j] + 2.5})
+    fails += f1
+    if case.get("maps"):
+        for (a, b) in ((2.0, 0.0), (1.0, 3e6) if st not in ADAPTIVE else (1.0, float(2 ** 22))):
+            fails += check_valuemap({"strategy": st, "x": x, "y": y, "n": n, "p": p, "a": a, "b": b})[0]
+        fails += check_timemap({"strategy": st, "x": x, "y": y, "n": n, "p": p, "c": 2.0, "d": 0.0})[0]
+    return shrink(fails, long=True), ("ll", st, n, m, gk, j)
+
+
 def harnesses(tier, seed):
     quick = tier == "quick"
     vals = (0, 1, 3) if quick else A.V
@@ -211,4 +231,21 @@ def harnesses(tier, seed):
         if st == "linfix" and n == 2 and xp == W.XPATTERNS6[0]:
             ctx.sample({"strategy": st, "x": x, "n": n, "p": p, "y": "whole lattice ^6", "value_maps": vmaps, "time_maps": TMAPS})
 
-    return [{"name": "metamorphic", "body": body}]
+    lsizes = A.sizes(40 if quick else 72, 1100 if quick else 9000, minimum=4)
+
+    def long_body(ctx):
+        st = ctx.choose(RC.STRATS, "strategy")
+        gk = ctx.choose(["uniform", "gaps"], "grid")
+        n = ctx.choose([2, 12] if quick else [2, 5, 12, 32], "n")
+        p = RC.pkey(psets(st, n)[0])
+        for m in lsizes:
+            if m * n > (5000 if quick else 40000):
+                continue
+            js = A.interesting_indices(m - 1, dense_to=12, limit=10)
+            for k, j in enumerate(js):
+                judge(ctx, check_locality_long, {"len": m, "grid": gk, "strategy": st, "n": n, "p": p, "j": j, "maps": k == 0},
+                      calls=2 + (6 if k == 0 else 0), bulk=True)
+
+    return [{"name": "metamorphic", "body": body},
+            {"name": "long-series", "body": long_body,
+             "bound_text": "every number of averages 4..%d, 2^k+1 and around every integer constant of the code up to %d; locality at the interesting positions, unit maps" % (40 if quick else 72, lsizes[-1])}]
